@@ -138,6 +138,9 @@ pub struct ShardResult {
     pub samples: Vec<Value>,
     pub found: Vec<FoundViolation>,
     pub excluded_known: BTreeMap<String, u64>,
+    /// development aid (DVCHECK_SAVE_KNOWN): first case per (finding id, facts) of excluded violations
+    #[serde(default)]
+    pub known_samples: BTreeMap<String, Value>,
     pub harness_errors: Vec<String>,
     pub wall_s: f64,
 }
@@ -271,11 +274,21 @@ impl Ctx {
 
     /// Classify the violations of a case: returns the first *unknown* one (known ones are counted).
     fn triage(&mut self, vs: &[Violation], count: bool) -> Option<Violation> {
+        self.triage_case(vs, count, None)
+    }
+
+    fn triage_case(&mut self, vs: &[Violation], count: bool, case: Option<&dyn Fn() -> Value>) -> Option<Violation> {
         let mut unknown = None;
         for v in vs {
             match self.known.matches(v) {
                 Some(id) if !self.strict => {
                     if count {
+                        if let (Some(cf), true) = (case, std::env::var_os("DVCHECK_SAVE_KNOWN").is_some()) {
+                            let key = format!("{}|{}", id, serde_json::to_string(&v.facts).unwrap_or_default());
+                            if !self.res.known_samples.contains_key(&key) && self.res.known_samples.len() < 64 {
+                                self.res.known_samples.insert(key, json!({"case": cf(), "violation": v}));
+                            }
+                        }
                         *self.res.excluded_known.entry(id).or_default() += 1;
                     }
                 }
@@ -358,7 +371,8 @@ impl Ctx {
             }
             let vs = std::mem::take(&mut log.violations);
             let shrinking = failed.get();
-            let unknown = me.triage(&vs, !shrinking);
+            let c3 = case.clone();
+            let unknown = me.triage_case(&vs, !shrinking, Some(&|| serde_json::to_value(&c3).unwrap_or(Value::Null)));
             if !shrinking {
                 let c2 = case.clone();
                 me.absorb(label, log, &|| serde_json::to_value(&c2).unwrap_or(Value::Null));
